@@ -87,6 +87,22 @@ impl SearchResult {
     }
 }
 
+/// A goal literal such as `1` parses as a float, while the fact it is compared with usually
+/// holds an integer (that is what `x = 1` in a rule assigns) and `==` / `!=` compare the
+/// variants strictly. Compare an integral literal as an integer when the field holds one.
+fn align_goal_literal_with_fact(condition: &mut crate::engine::rule::Condition, facts: &Facts) {
+    if let Value::Number(n) = condition.value {
+        if n.fract() == 0.0 && n.abs() < 9.0e15 {
+            let current = facts
+                .get_nested(&condition.field)
+                .or_else(|| facts.get(&condition.field));
+            if matches!(current, Some(Value::Integer(_))) {
+                condition.value = Value::Integer(n as i64);
+            }
+        }
+    }
+}
+
 /// Depth-first search implementation
 pub struct DepthFirstSearch {
     max_depth: usize,
@@ -431,7 +447,8 @@ impl DepthFirstSearch {
         }
 
         // Parse goal pattern into a Condition and use ConditionEvaluator
-        if let Some(condition) = self.parse_goal_pattern(&goal.pattern) {
+        if let Some(mut condition) = self.parse_goal_pattern(&goal.pattern) {
+            align_goal_literal_with_fact(&mut condition, facts);
             // Use RuleExecutor's evaluator (which delegates to ConditionEvaluator)
             self.executor
                 .evaluate_condition(&condition, facts)
@@ -1022,7 +1039,8 @@ impl BreadthFirstSearch {
         }
 
         // Parse goal pattern into a Condition and use ConditionEvaluator
-        if let Some(condition) = self.parse_goal_pattern(&goal.pattern) {
+        if let Some(mut condition) = self.parse_goal_pattern(&goal.pattern) {
+            align_goal_literal_with_fact(&mut condition, facts);
             // Use RuleExecutor's evaluator (which delegates to ConditionEvaluator)
             self.executor
                 .evaluate_condition(&condition, facts)
